@@ -37,12 +37,14 @@ static const double EPS = std::numeric_limits<DT>::epsilon();
 
 enum Field { V0, SYNC0, X, Y };
 
-static SMir mk_mirror(const std::vector<long long>& mine, const std::vector<long long>& other, bool& empty)
+// The specification lists the dofs of a rank in the rank's LOCAL numbering (module Renum: not ascending in general) and gives
+// the mirror of every neighbour pair (field "mir" / "t2mir"): entry k = local index of the k-th shared dof in the common buffer
+// order (ascending global dof); such a mirror is not monotone for a renumbered patch.
+static SMir mk_mirror(const vj::Value& c, const char* field, int me, int s, Index nloc, bool& empty)
 {
-  std::vector<Index> idx;
-  for(std::size_t i = 0; i < mine.size(); ++i) if(std::find(other.begin(), other.end(), mine[i]) != other.end()) idx.push_back(Index(i));
+  const std::vector<long long> idx = c[field][key(me)][key(s)].ints();
   empty = idx.empty();
-  SMir mir(Index(mine.size()), Index(idx.size()));
+  SMir mir(nloc, Index(idx.size()));
   for(std::size_t k = 0; k < idx.size(); ++k) mir.indices()[k] = IT(idx[k]);
   return mir;
 }
@@ -71,7 +73,7 @@ template<int B_> struct TBlocked
   static LVec tmpl(const vj::Value& c, int me) { return LVec(Index(c["dofs"][key(me)].size())); }
   static void set(LVec& v, const std::vector<DT>& f) { DT* p = v.template elements<LAFEM::Perspective::pod>(); for(std::size_t i = 0; i < f.size(); ++i) p[i] = f[i]; }
   static std::vector<DT> flat(const LVec& v) { const DT* p = v.template elements<LAFEM::Perspective::pod>(); return std::vector<DT>(p, p + v.template size<LAFEM::Perspective::pod>()); }
-  static bool mirror(const vj::Value& c, int me, int s, Mir& m) { bool e; m = mk_mirror(c["dofs"][key(me)].ints(), c["dofs"][key(s)].ints(), e); return !e; }
+  static bool mirror(const vj::Value& c, int me, int s, Mir& m) { bool e; m = mk_mirror(c, "mir", me, s, Index(c["dofs"][key(me)].size()), e); return !e; }
   static long long scal(const vj::Value& c, const char* w) { return c[std::string(w) + "b"][std::to_string(B_)].as_int(); }
   static long long nglob(const vj::Value& c, bool pod) { return c["nglobal"].as_int() * (pod ? B_ : 1); }
 };
@@ -84,7 +86,7 @@ struct TScalar
   static LVec tmpl(const vj::Value& c, int me) { return LVec(Index(c["dofs"][key(me)].size())); }
   static void set(LVec& v, const std::vector<DT>& f) { for(std::size_t i = 0; i < f.size(); ++i) v.elements()[i] = f[i]; }
   static std::vector<DT> flat(const LVec& v) { return std::vector<DT>(v.elements(), v.elements() + v.size()); }
-  static bool mirror(const vj::Value& c, int me, int s, Mir& m) { bool e; m = mk_mirror(c["dofs"][key(me)].ints(), c["dofs"][key(s)].ints(), e); return !e; }
+  static bool mirror(const vj::Value& c, int me, int s, Mir& m) { bool e; m = mk_mirror(c, "mir", me, s, Index(c["dofs"][key(me)].size()), e); return !e; }
   static long long scal(const vj::Value& c, const char* w) { return c[w].as_int(); }
   static long long nglob(const vj::Value& c, bool) { return c["nglobal"].as_int(); }
 };
@@ -115,8 +117,8 @@ struct TTuple
   static bool mirror(const vj::Value& c, int me, int s, Mir& m)
   {
     bool e1, e2;
-    SMir m1 = mk_mirror(c["dofs"][key(me)].ints(), c["dofs"][key(s)].ints(), e1);
-    SMir m2 = mk_mirror(c["t2dofs"][key(me)].ints(), c["t2dofs"][key(s)].ints(), e2);
+    SMir m1 = mk_mirror(c, "mir", me, s, Index(c["dofs"][key(me)].size()), e1);
+    SMir m2 = mk_mirror(c, "t2mir", me, s, Index(c["t2dofs"][key(me)].size()), e2);
     m = Mir(std::move(m1), std::move(m2)); return !(e1 && e2);
   }
   static long long scal(const vj::Value& c, const char* w) { return c[std::string("t") + w].as_int(); }
